@@ -121,7 +121,8 @@ def check(ctx, h, r):
         names = ep.split_path(rest)
     except Exception:  # noqa: BLE001
         return
-    inp = {"doc": h.text, "ops": [list(x.op) for x in h.recs], "at": list(r.op), "before": before, "output": out}
+    inp = {"doc": h.text, "ops": [list(x.op) for x in h.recs], "at": list(r.op), "before": before, "output": out,
+           "stream": h.info.get("stream")}
     from .c05 import family_of
 
     if r.op[0] == "set" and ("#" in r.op[2] or "/*" in r.op[2]):
